@@ -267,7 +267,7 @@ func c18(e *Env) {
 	nTab := 0
 	var walk func(t *facts.Table)
 	walk = func(t *facts.Table) {
-		if types.Identical(t.Type.Key(), nf.tagType) {
+		if types.Identical(t.KeyT, nf.tagType) {
 			nTab++
 			d := t.DuplicateKeys()
 			c.Check(len(d) == 0, "language-keys", t.Name, e.P.Pos(t.Pos), fmt.Sprintf("%d distinct language keys", len(t.Entries)), "duplicate language key(s) "+strings.Join(d, ", ")+": the later entry silently wins")
